@@ -1,4 +1,5 @@
 """C02 - accepted language and nesting are those of gherkin.berp; same machine as the siblings."""
+from . import line_rules as lr
 from . import parser_rules as pr, builder_rules as br
 
 META = {
@@ -21,6 +22,7 @@ def run(rep):
     pr.rule_grammar(rep)
     pr.rule_look(rep)
     pr.rule_glue(rep)
+    lr.rule_token(rep, "C02.token")
     pr.rule_siblings(rep)
     br.rule_tags_ast(rep, "C02.attach")
     br.rule_rw(rep, "C02.rw", "C02.flow")
